@@ -40,7 +40,12 @@ fn cm(c: Cipher) -> (&'static str, CryptMethod) {
 }
 
 fn run_stream(driver: &Driver, st: &mut Stream, reqs: &[String], imps: &[String], nontrivial: &[bool]) {
+    if let Ok(dir) = std::env::var("VERIF_DUMP") {
+        let _ = std::fs::write(format!("{}/{}.req", dir, st.name), reqs.join("\n") + "\n");
+    }
+    let t = std::time::Instant::now();
     let resp = driver.ask(reqs);
+    st.count(&format!("driver-seconds={}", t.elapsed().as_secs()));
     for (((rq, m), i), nt) in reqs.iter().zip(resp.iter()).zip(imps.iter()).zip(nontrivial.iter()) {
         let key = m.split(' ').next().unwrap_or("").to_string();
         st.count(&format!("model={}", key));
@@ -491,15 +496,24 @@ fn doc_stream(driver: &Driver, seed: u64, from: u64, to: u64) -> Stream {
 }
 
 pub fn run(driver: &Driver, rep: &mut Report, seed: u64, thorough: bool) {
+    let t0 = std::time::Instant::now();
+    let mut lap = |rep: &mut Report, what: &str, t0: &std::time::Instant| {
+        rep.notes.push(format!("timing: {} done at {:.1}s", what, t0.elapsed().as_secs_f64()));
+    };
     let mut prim_or = Oracle::new("c06.primitives");
     let (a, b) = rc4_streams(driver, seed, if thorough { 20_000 } else { 600 }, &mut prim_or);
     rep.streams.push(a);
     rep.streams.push(b);
     rep.oracles.push(prim_or);
+    lap(rep, "rc4", &t0);
     rep.streams.extend(decrypt_streams(driver, seed, if thorough { 30_000 } else { 1200 }));
+    lap(rep, "decrypt", &t0);
     rep.streams.push(frompw_stream(driver, seed, if thorough { 6000 } else { 330 }));
+    lap(rep, "frompw", &t0);
     rep.streams.push(frompw_outside(driver, seed, if thorough { 6000 } else { 300 }));
+    lap(rep, "frompw.outside", &t0);
     rep.streams.push(doc_stream(driver, seed, 0, if thorough { 3000 } else { 120 }));
+    lap(rep, "doc", &t0);
 }
 
 pub fn replay(driver: &Driver, rep: &mut Report, name: &str, seed: u64, case: u64) {
